@@ -39,6 +39,19 @@ MUTANTS = [
     ('c20-embed-harmless-guard-respelled', 'malt/converters/functions.py',
      '      if fn_scope.level <= 2:', '      if not fn_scope.level > 2:',
      ['ok:malt.converters.functions.FunctionTransformer.visit_FunctionDef']),
+    ('c12-origin-offset-anchored-on-def', 'malt/pyct/origin_info.py',
+     'self._lineno_offset = context_lineno - root_node.decorator_list[0].lineno',
+     'self._lineno_offset = context_lineno - root_node.lineno',
+     ['malt.pyct.origin_info.OriginResolver.__init__']),
+    ('c12-absolute-lineno-off-by-one', 'malt/pyct/origin_info.py',
+     '    return lineno + self._lineno_offset', '    return lineno + self._lineno_offset - 1',
+     ['malt.pyct.origin_info.OriginResolver._absolute_lineno']),
+    ('c12-origin-harmless-reordered-init', 'malt/pyct/origin_info.py',
+     '''    self._source_lines = source_lines
+    self._comments_map = comments_map
+''', '''    self._comments_map = comments_map
+    self._source_lines = source_lines
+''', ['ok:malt.pyct.origin_info.OriginResolver.__init__']),
     ('c16-exit-guard-swapped', 'malt/operators/function_wrappers.py',
      '''  def __exit__(self, exc_type, exc_val, exc_tb):
     if self.options.user_requested:''', '''  def __exit__(self, exc_type, exc_val, exc_tb):
